@@ -1,6 +1,7 @@
 (* C12 - Equality is symmetric and consistent with ordering.
    Property theorems only; proofs live in Proofs/C12.v.  `veq`, `vneq`, `vlt`, `vgt`
-   (Model/ValueEq.v) are the functions compared with rsass's answers on every run. *)
+   (Model/ValueEq.v) are the functions compared with rsass's answers on every run.
+   State after the fixes 5445670 (symmetric Number::eq) and 0a747ec (map equality ignores key order). *)
 From Coq Require Import String List ZArith Bool NArith.
 From RV Require Import Base.F64 Model.Units Model.Numeric Model.ValueEq Proofs.C12.
 Import ListNotations.
@@ -11,43 +12,52 @@ Theorem C12_neq : forall a b, vneq a b = negb (veq a b).
 Proof. exact neq_is_negation. Qed.
 Print Assumptions C12_neq.
 
-(* every modelled value containing no NaN equals itself (structural induction) *)
-Theorem C12_refl : forall v, has_other v = false -> nan_free v = true -> veq v v = true.
+(* every modelled value containing no NaN equals itself; for maps the keys must be pairwise unequal, which
+   is what OrderMap::insert maintains (structural induction; first-match lookup finds the entry itself) *)
+Theorem C12_refl : forall v, has_other v = false -> nan_free v = true -> maps_nodup v = true -> veq v v = true.
 Proof. exact veq_refl. Qed.
 Print Assumptions C12_refl.
 
-(* numbers: every non-NaN double, every unit set (0 and infinities through the partial_cmp fallback) *)
 Theorem C12_refl_number : forall n, f_is_nan (nval n) = false -> num_eqb n n = true.
 Proof. exact num_eqb_refl. Qed.
 Print Assumptions C12_refl_number.
 
-(* equality is symmetric whenever the numbers of a and the numbers of b compare symmetrically:
-   Number/Numeric equality is the only source of asymmetry (strings, separators, brackets, list
-   and map structure, the empty list/map rule are symmetric) *)
-Theorem C12_sym : forall a b, pairs_sym a b -> veq a b = veq b a.
+(* F17 is fixed: Number::eq is symmetric for ALL pairs of doubles - NaN, infinities, signed zeros,
+   subnormals, overflowing differences included *)
+Theorem C12_number_eq_sym : forall a b : f64, number_eq a b = number_eq b a.
+Proof. exact number_eq_sym. Qed.
+Print Assumptions C12_number_eq_sym.
+
+(* Numeric equality (value + unit set): symmetric when the unit sets are equal or one side is unitless *)
+Theorem C12_numeric_eq_sym : forall a b, aligned a b = true -> num_eqb a b = num_eqb b a.
+Proof. exact num_eqb_sym_aligned. Qed.
+Print Assumptions C12_numeric_eq_sym.
+
+(* `a == b` = `b == a` for all values (numbers, strings, booleans, null, nested lists, maps with at most one
+   entry) whose numbers have aligned units.  What remains outside:
+   - two DIFFERENT convertible units (`1in == 96px`): each direction converts the other operand with its own
+     rounding, no proof that the two epsilon tests agree;
+   - maps with two or more entries: the lookup takes the FIRST entry with an equal key and equality of numbers
+     is not transitive, so symmetry needs an argument about key sets that is not done.
+   Both are checked on rsass's answers on every run (clause symmetry, no escape class). *)
+Theorem C12_sym : forall a b, maps_le1 a = true -> maps_le1 b = true -> all_aligned a b -> veq a b = veq b a.
 Proof. exact veq_sym. Qed.
 Print Assumptions C12_sym.
 
-(* PARTIAL characterisation of the symmetric number pairs: with the same unit set only Number::eq
-   (|a-b|/|a| <= EPSILON) can differ between the directions; with exactly one unitless operand both
-   directions are false.  A closed-form input class for Number::eq itself is not proved. *)
-Theorem C12_sym_number_partial : forall a b,
-  (us_eqb (nunit a) (nunit b) = true ->
-   number_eq (nval a) (nval b) = number_eq (nval b) (nval a) -> num_eqb a b = num_eqb b a) /\
-  (us_eqb (nunit a) (nunit b) = false -> num_is_no_unit a || num_is_no_unit b = true ->
-   num_eqb a b = false /\ num_eqb b a = false).
-Proof. intros a b. split; [apply numeric_eq_sym_same_unit|apply numeric_eq_unitless_vs_unit]. Qed.
-Print Assumptions C12_sym_number_partial.
+(* the same with the symmetry of the number pairs as the only hypothesis (whatever the units) *)
+Theorem C12_sym_general : forall a b, maps_le1 a = true -> maps_le1 b = true -> pairs_sym a b -> veq a b = veq b a.
+Proof. exact veq_sym_general. Qed.
+Print Assumptions C12_sym_general.
 
-(* F17: the unrestricted statement is false: 1 == 0.9999999999999998 but not the reverse *)
+(* F31: the unrestricted statement is still false for two different convertible units *)
 Definition C12_sym_statement : Prop := forall a b, veq a b = veq b a.
-Theorem C12_refuted_sym : ~ C12_sym_statement /\
-  veq (VNum one true) (VNum below_one true) = true /\ veq (VNum below_one true) (VNum one true) = false.
+Theorem C12_refuted_sym_two_units : ~ C12_sym_statement /\
+  veq (VNum turn_254 true) (VNum deg_9144 true) = true /\ veq (VNum deg_9144 true) (VNum turn_254 true) = false.
 Proof.
-  split; [|exact refuted_sym]. intros H. specialize (H (VNum one true) (VNum below_one true)).
-  destruct refuted_sym as [E1 E2]. rewrite E1, E2 in H. discriminate.
+  split; [|exact refuted_sym_two_units]. intros H. specialize (H (VNum turn_254 true) (VNum deg_9144 true)).
+  destruct refuted_sym_two_units as [E1 E2]. rewrite E1, E2 in H. discriminate.
 Qed.
-Print Assumptions C12_refuted_sym.
+Print Assumptions C12_refuted_sym_two_units.
 
 (* for two numbers that the code can compare (partial_cmp is Some) and that carry the same
    `calculated` flag, exactly one of <, ==, > holds *)
@@ -65,12 +75,11 @@ Theorem C12_refuted_trichotomy_unitless : count3 (VNum one_px true) (VNum one tr
 Proof. exact refuted_trichotomy_unitless. Qed.
 Print Assumptions C12_refuted_trichotomy_unitless.
 
-(* hypotheses are satisfiable *)
+(* hypotheses are satisfiable; the former F17 witness is now equal in both directions *)
 Example C12_nonvacuous :
-  pairs_sym (VList [VNum one true; VStr [97%N] false] 1 false) (VList [VNum one true; VStr [97%N] true] 1 false)
-  /\ numeric_cmp one below_one = Some (Some Eq) /\ numeric_cmp below_one one = Some (Some Lt)
-  /\ nan_free (VMap [VStr [97%N] false] [VNum one true]) = true.
-Proof.
-  split; [|vm_compute; auto].
-  intros x y Hx Hy. cbn in Hx, Hy. destruct Hx as [<-|[]]; destruct Hy as [<-|[]]. reflexivity.
-Qed.
+  let a := VList [VNum one true; VStr [97%N] false; VMap [(VStr [98%N] false, VNum below_one true)]] 1 false in
+  let b := VList [VNum below_one true; VStr [97%N] true; VMap [(VStr [98%N] true, VNum one true)]] 1 false in
+  maps_le1 a = true /\ maps_le1 b = true /\ veq a b = true /\ veq b a = true
+  /\ numeric_cmp one below_one = Some (Some Eq) /\ numeric_cmp below_one one = Some (Some Eq)
+  /\ maps_nodup (VMap [(VStr [97%N] false, VNum one true); (VStr [98%N] false, VNum one true)]) = true.
+Proof. vm_compute. repeat split; reflexivity. Qed.
